@@ -1,9 +1,9 @@
-\* C10 exhaustive: one thread, every detach order on stacks up to depth 7 (crosses the 2 -> 6 -> 14
+\* C10 exhaustive: one thread, two contexts, every detach / token-destruction order on stacks up to depth 7 (crosses the 2 -> 6 -> 14
 \* reallocation steps of the real array)
-CONSTANTS NT = 1  NK = 1  NV = 1  NS = 1  MaxCtx = 2  MaxSet = 1  MaxDepth = 7  MaxMap = 1  MaxDrop = 0  WithEmpty = FALSE
+CONSTANTS NT = 1  NK = 1  NV = 1  NS = 1  MaxCtx = 1  MaxSet = 1  MaxDepth = 7  MaxMap = 1  MaxDrop = 0  MaxTok = 8  SampleToks = 0  WithEmpty = FALSE
           GenDepth = 0  DeepTarget = 99  Hist = FALSE  KeepFlags = FALSE  Dev = {}
 INIT Init
 NEXT Next
 VIEW View
 INVARIANTS TypeOK MostRecentBinding Shadowing StackFrames
-PROPERTIES Immutable AttachMakesCurrent DetachRestores ForeignTokenNoOp ScopeActivates ThreadsIsolated
+PROPERTIES Immutable AttachMakesCurrent DetachRestores ForeignTokenNoOp TokenLifetime ScopeActivates ThreadsIsolated
